@@ -631,4 +631,90 @@ theorem shuffle_program_counterexample :
     runShuffle (.args []) 20 ((shuffleProgram.take 5) ++ (shuffleProgram.drop 7)) none = some [] ∧ shuffleSeeds (.args []) = [1] := by
   decide
 
+/-! ### Phase 6: pipelines of several filters (composition depth / position, nested `Pipes.join`) -/
+
+/-- `Pipes.join` of already joined pipes, to any nesting depth: running the spliced filter list (what
+`FiltersFilter.filter` / `SourceFilters.read` do) is running every argument as a unit, left to right -/
+theorem join_nested_is_sequential {α : Type} (p : Pipe α) (xs : List α) : p.runFlat xs = p.run xs :=
+  pipe_flat_eq_run' p xs
+
+/-- position independence: in a pipeline `fs ++ gs` the filters `gs` see exactly what `fs` alone delivers and behave
+as they would at the head of a pipeline (so the 2nd, 3rd … filter of a kind is the same function as the 1st) -/
+theorem pipeline_append {R α : Type} (ops : FloatOps R) (A : Acc α) (nT : Nat) (fs gs : List FOp) (xs : List α) :
+    pipeline ops A nT (fs ++ gs) xs =
+      (match pipeline ops A nT fs xs with | .ok ys => pipeline ops A nT gs ys | .error e => .error e) :=
+  pipeline_append' ops A nT fs gs xs
+
+/-- EVERY pipeline of C09 filters (any kinds, any parameters, any length, any arithmetic in Reservoir) that returns
+delivers input interactions taken at distinct positions: a permutation of a sub-list of its input -/
+theorem pipeline_keeps_inputs {R α : Type} (ops : FloatOps R) (A : Acc α) (nT : Nat) (fs : List FOp)
+    (xs ys : List α) (h : pipeline ops A nT fs xs = .ok ys) : ys.Subperm xs := pipeline_subperm' ops A nT fs xs ys h
+
+/-- a pipeline of selecting filters only (Take, Slice, Where, Identity) keeps the input order -/
+theorem pipeline_selecting_keeps_order {R α : Type} (ops : FloatOps R) (A : Acc α) (nT : Nat) (fs : List FOp)
+    (hs : ∀ op ∈ fs, op.selecting = true) (xs ys : List α) (h : pipeline ops A nT fs xs = .ok ys) : ys.Sublist xs :=
+  pipeline_selecting_sublist' ops A nT fs hs xs ys h
+
+/-- a pipeline of ordering filters only (Shuffle, Riffle, Sort, Identity) delivers a permutation of its input -/
+theorem pipeline_ordering_perm {R α : Type} (ops : FloatOps R) (A : Acc α) (nT : Nat) (fs : List FOp)
+    (hs : ∀ op ∈ fs, op.ordering = true) (xs ys : List α) (h : pipeline ops A nT fs xs = .ok ys) : ys.Perm xs :=
+  pipeline_ordering_perm' ops A nT fs hs xs ys h
+
+/-- the 2nd Take: `take(a).take(b)` is `take(min a b)` -/
+theorem take_take {R α : Type} (ops : FloatOps R) (A : Acc α) (nT : Nat) (a b : Nat) (xs : List α) :
+    pipeline ops A nT [.take (some a) false, .take (some b) false] xs = pipeline ops A nT [.take (some (min a b)) false] xs :=
+  take_take' ops A nT a b xs
+
+/-- the hypotheses are satisfiable / the definitions compute: take(4) → slice(1,None,2) → strict take(2) on six interactions -/
+example : pipeline ratOps (⟨fun _ => false, fun _ => false, fun _ => Ctx.none, fun _ => 0⟩ : Acc Nat) 12
+    [.take (some 4) false, .slice (some 1) none 2, .take (some 2) true] [10, 11, 12, 13, 14, 15] = .ok [11, 13] := by decide
+example : (Pipe.joined [.joined [.one (fun xs => .ok (xs.take 2))], .one (fun (xs : List Nat) => .ok xs.reverse)]).runFlat [1, 2, 3]
+    = .ok [2, 1] := by decide
+/-- the order hypothesis of `pipeline_selecting_keeps_order` is forced: a second strict Take after a Take is not the
+Take of the minimum (it delivers nothing), and a Riffle in the pipeline breaks the order -/
+theorem take_take_strict_counterexample :
+    pipeline ratOps (⟨fun _ => false, fun _ => false, fun _ => Ctx.none, fun _ => 0⟩ : Acc Nat) 12
+      [.take (some 2) false, .take (some 3) true] [0, 1, 2, 3] = .ok [] ∧
+    pipeline ratOps (⟨fun _ => false, fun _ => false, fun _ => Ctx.none, fun _ => 0⟩ : Acc Nat) 12
+      [.take (some 2) true] [0, 1, 2, 3] = .ok [0, 1] := by decide
+
+/-! ### Phase 6: translator tie — the statements of `FiltersFilter.__init__/filter`, `SourceFilters.__init__/read` and
+`Environments.filter`, read off the current source on every run -/
+
+/-- the extracted constructor bodies (the splice of already joined arguments, meaning `Pipe.filtersL`) and the body of
+`Environments.filter` (meaning `productMembers`) are the statements the model assumes -/
+theorem pipeline_code_as_modelled :
+    Coba.Generated.C09.filtersFilterInit = joinInitProgram "self._filters" ∧
+    Coba.Generated.C09.sourceFiltersInit = joinInitProgram "self._pipes" ∧
+    Coba.Generated.C09.environmentsFilter = envFilterProgram := by decide
+
+/-- the EXTRACTED bodies of `FiltersFilter.filter` (argument `items`) and `SourceFilters.read`, run by the model's
+interpreter, compute `chainF` of the pipe's filters for every filter list and every input: each filter once, in
+order, on what the one before delivered, the first exception ends the run.  (Proved on the extracted statements
+themselves, so a renaming of the loop / data variables in the source keeps it provable; for the model's own copies of
+the two programs see `runPipeProgram_filter_model'` / `runPipeProgram_read_model'`.) -/
+theorem pipe_programs_compute_chain {α : Type} (fs : List (List α → Except Err (List α))) (input : List α) :
+    runPipeProgram fs input Coba.Generated.C09.filtersFilterFilter [("items", .ok input)] = some (chainF fs input) ∧
+    runPipeProgram fs input Coba.Generated.C09.sourceFiltersRead [] = some (chainF fs input) := by
+  constructor <;>
+    simp [runPipeProgram, Coba.Generated.C09.filtersFilterFilter, Coba.Generated.C09.sourceFiltersRead, loopFilters, List.lookup]
+
+/-- an edit of the loop is noticed: a body that hands its argument back without the loop does not compute the pipeline -/
+theorem pipe_program_counterexample :
+    runPipeProgram [fun (xs : List Nat) => .ok (xs.take 1)] [0, 1] [(0, "return", "items", "")] [("items", .ok [0, 1])] = some (.ok [0, 1]) ∧
+    chainF [fun (xs : List Nat) => .ok (xs.take 1)] [0, 1] = .ok [0] := by decide
+
+/-- no pipeline of C09 filters alters the content of an interaction, and which interactions it keeps / where it puts them
+depends on the attributes the filters read (`A`), the parameters and the positions only: the whole pipeline commutes with
+every relabelling `f` of the interactions (accessors relabelled accordingly), exceptions included -/
+theorem pipeline_content_preserved {R α β : Type} (ops : FloatOps R) (A : Acc β) (f : α → β) (nT : Nat) (fs : List FOp) (xs : List α) :
+    pipeline ops A nT fs (xs.map f) =
+      (pipeline ops ⟨A.isLogged ∘ f, A.hasCtx ∘ f, A.ctx ∘ f, A.nAct ∘ f⟩ nT fs xs).map (List.map f) :=
+  pipeline_map' ops A f nT fs xs
+
+/-- Sort alone commutes with every relabelling as well (was missing from `content_preserved`) -/
+theorem sort_content_preserved {α β} (f : α → β) (hasCtx : β → Bool) (ctx : β → Ctx) (keys : List Val) (xs : List α) :
+    sortF hasCtx ctx keys (xs.map f) = (sortF (hasCtx ∘ f) (ctx ∘ f) keys xs).map (List.map f) :=
+  sortF_map' f hasCtx ctx keys xs
+
 end Coba.C09
